@@ -8,7 +8,7 @@ ENC = Ctx()
 
 STRS = ['', 'a', 'ab', 'abc', 'x_y', '1', '1.5', '-2', '1/2', '3/0', 'nan', '2020-01-02', '2020-01-02T03:04:05', '03:04:05',
         '09/05/2023', 'x{', '(', 'a{4294967296}', 'é', 'A b', 'tag', 'v1', '/tmp/x', 'rel/p', 'True', 'None']
-INTS = [0, 1, -1, 2, 3, 5, 7, -4, 10, 255, 2 ** 53, 2 ** 53 + 1, -2 ** 60, 10 ** 30]
+INTS = [0, 1, -1, 2, 3, 5, 7, -4, 10, 255, 2 ** 53, 2 ** 53 + 1, -2 ** 60, 10 ** 30, 10 ** 400, -10 ** 400]   # the last two: beyond the float range
 FLOATS = [0.0, 1.0, -1.0, 0.5, 2.5, -3.25, 1e10, 5.0, math.inf, -math.inf]
 SCALAR_TYS = ['bool', 'int', 'float', 'complex', 'str', 'bytes', 'bytearray', 'NoneType', 'Decimal', 'Fraction',
               'datetime', 'date', 'time', 'Path:PurePosixPath', 'Path:PathLike']
@@ -188,6 +188,8 @@ class Gen:
         if r.random() < 0.5:
             # overlap-biased: members that accept common values
             pool = [['int', 'float', 'complex'], ['str', 'Decimal', 'Fraction'], ['str', 'date', 'datetime'],
+                    ['Decimal', 'date'], ['Fraction', 'datetime', 'float'], ['date', 'datetime'], ['Decimal', 'float', 'Fraction'], ['float', 'int'],
+                    ['time', 'datetime', 'date'],
                     ['bool', 'int'], ['NoneType', 'int', 'str'], ['bytes', 'bytearray', 'str'],
                     [{'lit': ['auto']}, 'float', {'lit': [{'i': '0'}]}], [{'lit': [{'i': '1'}]}, 'complex', {'lit': [{'i': '2'}, 'a']}, 'str'],
                     [{'lit': [True]}, 'int', {'lit': [False, None]}], ['float', {'lit': [{'i': '3'}]}, 'int', {'lit': ['x', {'i': '5'}]}]]
@@ -362,9 +364,9 @@ class Gen:
                 'bytearray': lambda: r.choice([self.rbytes(), bytearray(self.rbytes())]),
                 'Decimal': lambda: r.choice([r.randint(-5, 5), '1.5', '-2', '0.25', self.rfloat(), '10']),
                 'Fraction': lambda: r.choice([r.randint(-5, 5), '1/2', '-3/4', '5', '0.25', 2.5]),
-                'datetime': lambda: r.choice(['2020-01-02T03:04:05', '2021-12-31 23:59:59', '2020-01-02']),
-                'date': lambda: r.choice(['2020-01-02', '1999-12-31']),
-                'time': lambda: r.choice(['03:04:05', '23:59', '03:04:05.123456']),
+                'datetime': lambda: self.rdt(['2020-01-02T03:04:05', '2021-12-31 23:59:59', '2020-01-02'], ('datetime', 'date')),
+                'date': lambda: self.rdt(['2020-01-02', '1999-12-31'], ('date', 'datetime')),
+                'time': lambda: self.rdt(['03:04:05', '23:59', '03:04:05.123456'], ('time', 'datetime')),
                 'ndarray': lambda: [[1, 2], [3, 4]],
             }.get(ty, lambda: r.choice(['/tmp/x', 'rel/p', 'a']))()
         (k, v), = ty.items()
@@ -415,6 +417,25 @@ class Gen:
         if k == 'typevar':
             return self.arbitrary(depth + 1)
         return self.arbitrary(depth + 1)
+
+    def rdt(self, texts, kinds):
+        """data for a date/time target: mostly ISO text; sometimes an OBJECT of one of the date/time classes the converter
+        accepts for that target (what a YAML loader hands over), or an instance of a user subclass of one"""
+        import datetime as _dt
+        r = self.r
+        if getattr(self, 'no_dt_objects', False) or r.random() < 0.75:
+            return r.choice(texts)
+        kind = r.choice(kinds)
+        base = {'datetime': _dt.datetime, 'date': _dt.date, 'time': _dt.time}[kind]
+        iso = {'datetime': ['2020-01-02T03:04:05', '2021-12-31T23:59:59.5'], 'date': ['2020-01-02', '1999-12-31'], 'time': ['03:04:05', '23:59:00']}[kind]
+        if r.random() < 0.4 and not getattr(self, 'no_dt_sub', False):
+            nm = 'My' + kind.title()
+            if nm not in ENC.subs:
+                ENC.add_sub(nm, kind)
+            if not any(x[0] == nm for x in self.decl['subs']):
+                self.decl['subs'].append([nm, kind, {}])
+            return ENC.subs[nm][0].fromisoformat(r.choice(iso))
+        return base.fromisoformat(r.choice(iso))
 
     def hashable_form(self, x):
         if isinstance(x, list):
@@ -542,6 +563,8 @@ def scenarios_conv(seed, n, op='from_data', max_depth=3, classes=True, history=0
     for i in range(n):
         gen = Gen(g.randrange(1 << 62), max_depth=g.choice([1, 2, 2, 3, max_depth]), classes=classes,
                   noinit=op not in ('roundtrip', 'into_data', 'convert2'))
+        # a round trip gives back the plain date/time class: instances of user subclasses of date/time are not fixed points
+        gen.no_dt_sub = op in ('roundtrip', 'into_data', 'convert2')
         ty = gen.gen_type(0, lit_ok=True)
         p = gen.r.random()
         try:
@@ -1186,6 +1209,12 @@ def scenarios_valuesem(seed, n):
         a, b = r.randrange(len(pool)), r.randrange(len(pool))
         op = r.choice(['cmp', 'cmp', 'cmp', 'repr', 'setattr', 'delattr', 'copy', 'replace', 'dictview', 'copyset', 'copyset'])
         sc = dict(sc0, id=f'v{seed}:{i}', op=op)
+        if op == 'repr' and not generic and r.random() < 0.6:
+            # repr is a function of the field values, whatever happened before: the first field loses its default, an instance
+            # that LACKS it is shown (AttributeError), the field is then assigned and the instance is shown again
+            d['fields'][0].pop('default', None)
+            (d['fields'][0].get('spec') or {}).pop('repr', None)
+            sc['partial'] = fnames[0]
         if op == 'cmp':
             sc.update(a=pool[a], b=pool[b], akey=keys[a], bkey=keys[b], eq_opt=eq_opt, order_opt=order_opt,
                       pool=[[x, k] for x, k in zip(pool, keys)])
@@ -1209,6 +1238,29 @@ def scenarios_valuesem(seed, n):
         else:
             sc.update(cls=pool[a]['obj'][0], obj=pool[a], set_only=r.random() < 0.5, rename=r.choice([None, None, 'camel', 'scream', 'pascal']))
         out.append(sc)
+    return out
+
+
+def scenarios_dictview_names(seed, n):
+    """C20 through the class API: `obj.dict(rename=style)` / `dict(set_only=True, rename=style)` on classes whose field names
+    have several words (and, rarely, a name the renaming refuses)"""
+    g = random.Random(seed)
+    out = []
+    names = ['host_name', 'time_out', 'my_field', 'a_b_c', 'x', 'user_id', 'userid', 'max_retry_count', 'ab_cd', 'abcd']
+    for i in range(n):
+        r = random.Random(g.randrange(1 << 62))
+        fn = r.sample(names, r.randint(1, 4))
+        if r.random() < 0.08:
+            fn.append(r.choice(['trailing_', 'dbl__us']))
+        cname = f'Dv{seed % 1000}x{i}'
+        d = {'name': cname, 'fields': [{'name': f, 'ty': 'int', 'default': {'value': {'i': str(k)}}} for k, f in enumerate(fn)], 'opts': {}, 'hook': None}
+        if r.random() < 0.3:
+            d['opts']['frozen'] = False
+        setf = [f for f in fn if r.random() < 0.6]
+        obj = {'obj': [cname, [[f, {'i': str(r.randint(0, 9))}] for f in fn], setf]}
+        out.append({'id': f'dv{seed}:{i}', 'decl': {'enums': [], 'subs': [], 'classes': [d]}, 'spell': 0, 'stream': 'dictview-names', 'tys': [],
+                    'op': 'dictview', 'cls': cname, 'obj': obj, 'set_only': r.random() < 0.5,
+                    'rename': r.choice(['camel', 'scream', 'pascal', 'kebab', 'snake', None])})
     return out
 
 
@@ -1538,7 +1590,7 @@ def scenarios_history(seed, n, threads=0):
     """C10: random histories of alloc / drop / gc / churn / call over a few slots and a pool of short-lived type expressions"""
     g = random.Random(seed)
     out = []
-    NT = 18
+    NT = 20
     for i in range(n):
         r = random.Random(g.randrange(1 << 62))
         hist = []
@@ -1565,6 +1617,10 @@ def scenarios_history(seed, n, threads=0):
         if r.random() < 0.4:
             a, b = r.sample(range(NT), 2)
             hist += [['alloc', 0, a], ['call', 0, 0], ['drop', 0], ['gc'], ['alloc', 1, b], ['call', 1, 0], ['alloc', 0, b], ['call', 0, 0]]
+        if r.random() < 0.25:
+            # a build that FAILS (no handler for the plain class), then the same type object with the handler that knows it
+            u = r.choice([18, 19])
+            hist += [['alloc', 2, u], ['call', 2, 0], ['call', 2, 1, r.randrange(2)], ['call', 2, 0], ['call', 2, 1, r.randrange(2)]]
         out.append({'id': f'hi{seed}:{i}', 'op': 'history', 'hist': hist, 'threads': threads if r.random() < 0.3 else 0, 'stream': 'history'})
     return out
 
@@ -1581,7 +1637,10 @@ def scenarios_lru(seed, n):
 
 
 IO_STRS = ['', 'a', 'plain text', 'yes', 'no', 'null', '~', '2020-01-02', '1e3', '- a', 'k: v', 'é ü 日本', 'tab\there', 'line1\nline2', ' lead', 'trail ',
-           '"quoted"', "it's", '#hash', '{brace}', '1', '1.5', 'True', '0x10', 'a' * 90]
+           '"quoted"', "it's", '#hash', '{brace}', '1', '1.5', 'True', '0x10', 'a' * 90,
+           # line-break characters other than \n (the YAML emitters and readers treat them specially), runs of spaces next to a
+           # narrow `width`, a BOM, a trailing CR
+           'first\x85second', 'a\u2028b', 'p\u2029q', 'w1  w2   w3 ' * 4, 'many words in a row that need folding ' * 3, '\ufeffbom', 'cr\r', 'end\r\n']
 
 
 def scenarios_io(seed, n):
@@ -1662,7 +1721,7 @@ def scenarios_io(seed, n):
         except Exception:
             continue
         out.append({'id': f'io{seed}:{i}', 'decl': ge.decl, 'op': 'io', 'ty': ty, 'val': wire, 'fmt': fmt, 'sink': sink, 'opts': opts,
-                    'ndocs': r.randint(1, 4), 'enc': r.choice(['utf-8', 'latin-1', 'ascii', 'cp1252', 'utf-16']), 'is_path': sink in ('strpath', 'path', 'method_file', 'yaml_all_path'), 'spell': r.randrange(2), 'stream': 'io-' + fmt})
+                    'prelude_fail': r.random() < 0.25, 'ndocs': r.randint(1, 4), 'enc': r.choice(['utf-8', 'latin-1', 'ascii', 'cp1252', 'utf-16']), 'is_path': sink in ('strpath', 'path', 'method_file', 'yaml_all_path'), 'spell': r.randrange(2), 'stream': 'io-' + fmt})
     return out
 
 
